@@ -12,7 +12,7 @@ func reader_scan_wrappedGraph(r *Decoder, ectx evaluationContext, r0 cursorio.De
 	} else if r0.Rune != '{' {
 		r.buf.BacktrackRunes(r0)
 
-		return readerStack{}, grammar.R_wrappedGraph.Err(r.newOffsetError(cursorioutil.UnexpectedRuneError{Rune: r0.Rune}, cursorio.DecodedRunes{}, r0.AsDecodedRunes()))
+		return readerStack{}, grammar.R_wrappedGraph.Err(r.newOffsetError(cursorioutil.UnexpectedRuneError{Rune: r0.Rune}, cursorio.DecodedRunes{}, cursorio.DecodedRunes{}))
 	}
 
 	r.commit(r0.AsDecodedRunes())
@@ -28,7 +28,7 @@ func reader_scan_wrappedGraph_End(r *Decoder, ectx evaluationContext, r0 cursori
 	} else if r0.Rune != '}' {
 		r.buf.BacktrackRunes(r0)
 
-		return readerStack{}, grammar.R_wrappedGraph.Err(r.newOffsetError(cursorioutil.UnexpectedRuneError{Rune: r0.Rune}, cursorio.DecodedRunes{}, r0.AsDecodedRunes()))
+		return readerStack{}, grammar.R_wrappedGraph.Err(r.newOffsetError(cursorioutil.UnexpectedRuneError{Rune: r0.Rune}, cursorio.DecodedRunes{}, cursorio.DecodedRunes{}))
 	}
 
 	r.commit(r0.AsDecodedRunes())
